@@ -367,7 +367,13 @@ def run(ctx):
                 sp = model.get((idx, 'spec'))
                 if sp is not None and sp != wants:
                     raise Infra(f'C01: Lean Spec {sp} and Python oracle {wants} differ on {inp}')
-                ok, r = call(ebb_calc.move_dist_lt, dps, rate, accel, T, acc)
+                # a share of the explicit start accumulators is passed as the same integer held in a float (the code converts
+                # with int(); exact below 2**53): the value judged is unchanged, only the argument's type differs
+                acc_arg = acc
+                if type(acc) is int and idx % 13 == 5:
+                    acc_arg = float(acc)
+                    inp['acc_passed_as'] = 'float'
+                ok, r = call(ebb_calc.move_dist_lt, dps, rate, accel, T, acc_arg)
                 impl = pyval(tuple(r)) if ok and isinstance(r, (tuple, list)) else (pyval(r) if ok else 'EXC ' + r)
                 if idx % 997 == 0 or idx < 3:
                     ctx.sample({'input': inp, 'impl': impl, 'recurrence': wants})
